@@ -9,6 +9,7 @@ From Coq Require Import ZArith List Bool Reals. Import ListNotations.
 From PV Require Import Num NumR model.Geom proofs.LatticeFacts proofs.SiteFacts proofs.OverlapFacts proofs.PackingFacts proofs.LJFacts proofs.RedescribeFacts proofs.LatticeSumFacts proofs.OriginShift.
 From PV Require Import gen.GenFns proofs.SourceFacts.
 From PV Require Import model.Iter proofs.SearchFacts.
+From PV Require Import gen.GenFns proofs.SourceFacts proofs.SearchFacts.
 
 Theorem C03_lj_sum_formula :
   forall st : ljstateR, lj_sum NumR rpowi st = (incell_sum st + / 2 * image_sum st)%R.
@@ -137,4 +138,25 @@ Theorem C03_lj_score_is_source :
     powi st = lj_score NN powi st.
 Proof. exact lj_score_is_source. Qed.
 Print Assumptions C03_lj_score_is_source.
+
+
+Theorem S_ljshape_energy_is_source :
+  forall (NN : Num) (powi : carrier NN -> Z -> carrier NN) (a b : list (lj NN)),
+    gen_ljshape_energy NN powi a b = ljshape_energy NN powi a b.
+Proof. exact ljshape_energy_is_source. Qed.
+Print Assumptions S_ljshape_energy_is_source.
+
+Theorem S_lj_state_pipelines_are_source :
+  forall (NN : Num) (st : ljstate NN), gen_lj_total_shapes NN st = N.of_nat (length (l_sites NN
+    st) * length (l_syms NN st)) /\ gen_lj_relative_positions NN st = lj_relative NN st /\
+    gen_lj_cartesian_positions NN st = lj_cartesian NN st.
+Proof. exact lj_state_pipelines_are_source. Qed.
+Print Assumptions S_lj_state_pipelines_are_source.
+
+Theorem S_lj_trimer_is_source :
+  forall (NN : Num) (fsin fcos : carrier NN -> carrier NN) (pi_ radius angle distance : carrier
+    NN), gen_lj_trimer NN fsin fcos pi_ radius angle distance = lj_trimer NN pi_ fsin fcos (nofZ
+    7 / nofZ 2)%num radius angle distance.
+Proof. exact lj_trimer_is_source. Qed.
+Print Assumptions S_lj_trimer_is_source.
 
